@@ -73,7 +73,7 @@ FIELD_NAMES = coregen.FIELD_NAMES
 # ----------------------------------------------------------------------------------
 
 def gen_leaf(rng, env, hashable=False):
-    names = list(HASHABLE_LEAVES if hashable else [k for k in LEAVES if k != "bytes"] + ["bytes"])
+    names = list(HASHABLE_LEAVES if hashable else LEAF_VALUES)
     extra = [n for n, d in env["defs"].items() if d[0] in ("enum", "literal")]
     if extra and rng.random() < 0.3:
         return ("leaf", rng.choice(extra))
